@@ -713,9 +713,15 @@ class PrenexNormalizer(DagWalker):
                 return (quantifiers + [(self.mgr.ForAll, nq)]), matrix
         return quantifiers, matrix
 
-    @handles(op.THEORY_OPERATORS)
+    @handles(op.THEORY_OPERATORS - frozenset([op.ARRAY_SELECT]))
     def walk_theory_op(self, formula: FNode, **kwargs):
         #pylint: disable=unused-argument
+        return None
+
+    def walk_array_select(self, formula: FNode, **kwargs) -> Optional[Tuple[List[Any], FNode]]:
+        # A select from an array of Booleans is an atom of the matrix
+        if self.env.stc.get_type(formula).is_bool_type():
+            return [], formula
         return None
 
 # EOC PrenexNormalizer
